@@ -1,7 +1,7 @@
 (* FormattersProofs.v — what the JSON formatters, the Filter and the format table do, for every payload type, every image
    function, every predicate, every format table and every schedule of table operations. *)
 From Coq Require Import List Bool Arith NArith Lia.
-From Verif Require Import Alist Json Formatters.
+From Verif Require Import Alist Json JsonProofs Formatters.
 Import ListNotations.
 Open Scope N_scope.
 
@@ -9,6 +9,26 @@ Lemma tget_tset_same f v t : tget f (tset f v t) = Some v.
 Proof. unfold tget, tset. apply aget_aset_same. exact neqb_spec. Qed.
 Lemma tget_tset_other f g v t : g <> f -> tget g (tset f v t) = tget g t.
 Proof. unfold tget, tset. intros H. apply aget_aset_other; [exact neqb_spec|exact H]. Qed.
+
+(* ---------------------------------------------------------------- the stored line *)
+Lemma wf_envelope t ty v : wf v -> wf (envelope_jv t ty v).
+Proof. intros H. cbn. tauto. Qed.
+
+(* parsing the stored line gives an object with exactly the three members created_at, event_type and payload, holding the
+   time text, the event type and the payload's JSON image (strings as a JSON reader sees them: invalid UTF-8 bytes replaced
+   by U+FFFD; valid UTF-8, ASCII in particular, unchanged — sanitize_valid) *)
+Theorem envelope_members t ty v : wf v ->
+  parse_doc (envelope t ty v) =
+  Some (JObj [(k_created_at, JStr (sanitize t)); (k_event_type, JStr (sanitize ty)); (k_payload, jimage v)]).
+Proof.
+  intros Hw. unfold envelope. rewrite (parse_doc_line _ (wf_envelope t ty v Hw)). reflexivity.
+Qed.
+(* it is one line: the only newline is the terminating one *)
+Theorem envelope_single_line t ty v : wf v -> exists body, envelope t ty v = body ++ [10] /\ ~ In 10 body.
+Proof. intros Hw. apply encode_line_single. apply wf_envelope. exact Hw. Qed.
+(* the RFC3339 time text is ASCII, hence its own image *)
+Theorem envelope_time_ascii t : ascii t -> sanitize t = t.
+Proof. apply sanitize_ascii. Qed.
 
 Section Proofs.
   Variable P : Type.
